@@ -47,6 +47,8 @@ def main(argv=None):
     l.add_argument("prop")
     sub.add_parser("list")
     a = ap.parse_args(argv)
+    import warnings
+    warnings.filterwarnings("ignore", category=RuntimeWarning)
     if a.cmd == "run":
         from .report import run_property
         try:
